@@ -45,6 +45,16 @@ def gen_cases(rng, tier, count=None):
             out.append({"algo": "GPO_HCT", "stub": True, "part": "Bin", "box": [[0.0, 1.0]], "box_kind": "unit", "n": n,
                         "T": n, "params": {"nu": 1.5, "rhomax": rm}, "np_seed": 0,
                         "reward": {"family": "roundidx", "seed": 0}, "_cost": 2e-5 * n})
+    # long budgets with few learners: half-phase lengths H from a few dozen to several thousand rounds (counters far
+    # beyond anything the enumeration above reaches; the thorough enumeration goes to H = 1500)
+    for n in ([1000, 1550, 2000, 4000, 8000, 20000] if not count else []):
+        for rm in (0.1, 0.3, 0.5, 0.7, 0.8, 0.9):
+            N, H, x = C.gpo_N_H(n, rm)
+            if H < 1 or abs(x - round(x)) < 1e-9:
+                continue
+            out.append({"algo": "GPO_HCT", "stub": True, "part": "Bin", "box": [[0.0, 1.0]], "box_kind": "unit", "n": n,
+                        "T": n, "params": {"nu": 1.5, "rhomax": rm}, "np_seed": 0,
+                        "reward": {"family": "roundidx" if n % 2000 else "sin3", "seed": 0}, "_cost": 2e-5 * n})
     nreal = (count // 4 if count else None) or (160 if tier == "quick" else 3000)
     gp = [a for a in C.WRAPPERS if C.family(a) == "GPO"]
     for i in range(nreal):
